@@ -16,7 +16,7 @@ RULE = ("seeded key histories: secret keys (AES, DES3, generic) and RSA/EC priva
         "CKA_WRAP_WITH_TRUSTED and SO-created trusted wrapping keys; then: C_GetAttributeValue of every secret attribute alone and mixed with harmless ones, with NULL / short / exact / oversized buffers; "
         "C_SetAttributeValue and C_CopyObject templates that try to clear the protection; C_WrapKey under trusted and untrusted keys; derive-and-read; the same from another session and after restarts. "
         "Distinct+non-trivial: (origin of the key, flag state, attempt kind, buffer class, outcome) with the key protected.")
-PROBES = ["protected_read_refused", "unprotected_read_ok", "buffer_untouched_checked", "mixed_template", "wrap_unextractable_refused", "wrap_with_trusted_untrusted_refused", "wrap_with_trusted_trusted_ok", "wrap_ok",
+PROBES = ["db_backend_runs", "protected_read_under_fault", "protected_read_refused", "unprotected_read_ok", "buffer_untouched_checked", "mixed_template", "wrap_unextractable_refused", "wrap_with_trusted_untrusted_refused", "wrap_with_trusted_trusted_ok", "wrap_ok",
           "clear_protection_refused", "copy_clear_refused", "derived_inherits", "outputs_scanned", "after_restart", "generated_value_known", "rsa_components"]
 DEATH_IS_VIOLATION = ()
 
@@ -145,7 +145,20 @@ def gen(seed, tier, index):
     for _ in range(n):
         name = g.step(W)
         if name == "restart": g.relogin_all()
+    if index % 4 == 3:
+        # fault stratum: the protection flags themselves are READ from storage that can fail. SQLite store on the simulated disk, one read-side I/O error
+        # (read / access / fstat / lock below SQLite) inside up to three of the calls that read a secret attribute: such a call may fail, it may never reveal
+        # the value - neither then nor in any later read
+        g.knobs["conf"]["objectstore.backend"] = "db"
+        reads = [i for i, op in enumerate(g.ops[0]) if op.get("f") == "C_GetAttributeValue" and op.get("read")]
+        if reads: g.extra["fault_candidates"] = sorted(r.sample(reads, min(len(reads), r.randint(1, 3)))); g.profile = "fault"
+    elif index % 4 == 1 and index % 8 == 5:
+        g.knobs["conf"]["objectstore.backend"] = "db"      # fault-free runs on the SQLite store
     return g.plan()
+
+def prepare(plan, z):
+    from gen import place_faults
+    return place_faults(plan, z, plan["seed"])
 
 def _v(cls, msg, **kw):
     d = {"class": cls, "msg": msg}; d.update(kw); return d
@@ -159,6 +172,11 @@ def check(plan, r):
     restarted = False
     eff = {}
     def protected(o): return bool(o.sensitive) or o.extractable is False
+    fault_ops = set(e.get("op") for e in r.hist if e.get("e") == "fs" and e.get("fault"))
+    ff = min([x for x in fault_ops if isinstance(x, int)], default=None)
+    def after_fault(k_): return ff is not None and k_ >= ff      # an object store that could not be read may refuse the object from then on: any refusal is fine, a revealed value never is
+    backend = plan["knobs"].get("conf", {}).get("objectstore.backend", "file")
+    if backend == "db": st("db_backend_runs")
     for tid, k, op, ret in hist.walk(plan, r):
         pid = pids[tid][k]; P = w.proc(pid)
         f = hist.opname(op); rv = ret.get("rv"); ok = rv == 0
@@ -180,13 +198,16 @@ def check(plan, r):
                 if prot:
                     st("protected_read_refused")
                     if restarted: st("after_restart")
-                    if rv != K.CKR_ATTRIBUTE_SENSITIVE:
+                    if k in fault_ops: st("protected_read_under_fault")
+                    if rv != K.CKR_ATTRIBUTE_SENSITIVE and after_fault(k) and rv != 0:
+                        pass      # an injected I/O error inside this call or before it: it may fail in another way (the checks below still demand that nothing was revealed)
+                    elif rv != K.CKR_ATTRIBUTE_SENSITIVE:
                         viols.append(_v("C02.sensitive_rv", "C_GetAttributeValue(%s) of a protected key (sensitive=%s extractable=%s, made by %s) returned %s instead of CKR_ATTRIBUTE_SENSITIVE" % (K.name("CKA", t_), o.sensitive, o.extractable, origin.get(o.ref), K.rvname(rv)), call=f, op=k, attr=K.name("CKA", t_), origin=origin.get(o.ref)))
-                    if a.get("len") != -1:
+                    if a.get("len") != -1 and not (after_fault(k) and rv not in (0, K.CKR_ATTRIBUTE_SENSITIVE)):
                         viols.append(_v("C02.length_revealed", "C_GetAttributeValue(%s) of a protected key reports length %s instead of CK_UNAVAILABLE_INFORMATION" % (K.name("CKA", t_), a.get("len")), call=f, op=k, attr=K.name("CKA", t_), origin=origin.get(o.ref)))
                     if cap is not None:
                         st("buffer_untouched_checked")
-                        if a.get("touched", 0) != 0 or "v" in a:
+                        if a.get("touched", 0) != 0 or ("v" in a and not (after_fault(k) and rv not in (0, K.CKR_ATTRIBUTE_SENSITIVE))):      # a call that failed on an I/O error leaves ulValueLen alone: the "value" is the untouched canary
                             viols.append(_v("C02.bytes_written", "C_GetAttributeValue(%s) of a protected key wrote %s bytes into the caller's buffer" % (K.name("CKA", t_), a.get("touched")), call=f, op=k, attr=K.name("CKA", t_), origin=origin.get(o.ref)))
                     known = secret.get(o.ref, {}).get(t_)
                     st("outputs_scanned")
@@ -210,7 +231,7 @@ def check(plan, r):
                 if key.extractable is False:
                     st("wrap_unextractable_refused")
                     if ok: viols.append(_v("C02.wrapped_unextractable", "C_WrapKey succeeded for a key with CKA_EXTRACTABLE = false (made by %s)" % origin.get(key.ref), call=f, op=k, origin=origin.get(key.ref)))
-                    elif rv != K.CKR_KEY_UNEXTRACTABLE: viols.append(_v("C02.wrap_code", "C_WrapKey of an unextractable key returned %s (CKR_KEY_UNEXTRACTABLE expected)" % K.rvname(rv), call=f, op=k))
+                    elif rv != K.CKR_KEY_UNEXTRACTABLE and not after_fault(k): viols.append(_v("C02.wrap_code", "C_WrapKey of an unextractable key returned %s (CKR_KEY_UNEXTRACTABLE expected)" % K.rvname(rv), call=f, op=k))
                 elif key.wwt and not wk.trusted:
                     st("wrap_with_trusted_untrusted_refused")
                     if ok: viols.append(_v("C02.wrap_with_untrusted", "a key with CKA_WRAP_WITH_TRUSTED = true was wrapped under a key that is not CKA_TRUSTED", call=f, op=k))
@@ -261,6 +282,10 @@ def check(plan, r):
         w.apply(pid, op, ret)
         if ok and isinstance(op.get("out"), str) and op["out"] in eff and op["out"] in w.objs:
             w.objs[op["out"]].sensitive, w.objs[op["out"]].extractable = eff.pop(op["out"])
+    first_fault = min([x for x in fault_ops if isinstance(x, int)], default=None)
+    for v in viols:
+        v["backend"] = backend
+        v["read_fault_before"] = bool(first_fault is not None and isinstance(v.get("op"), int) and v["op"] >= first_fault)
     r.aux["c02"] = (cov, stats)
     seen = set(); out = []
     for v in viols:
